@@ -557,17 +557,19 @@ func (e *CoreExtension) functionRange(args ...interface{}) (interface{}, error) 
 	// Ensure it's always []interface{} for consistent handling in for loops
 	result := make([]interface{}, 0)
 
-	// For compatibility with existing tests, keep the end index inclusive
-	if step > 0 {
-		// For positive step, include the end value (end is inclusive)
-		for i := start; i <= end; i += step {
-			result = append(result, i)
-		}
-	} else {
-		// For negative step, include the end value (end is inclusive)
-		for i := start; i >= end; i += step {
-			result = append(result, i)
-		}
+	// The end value is inclusive. The number of elements is computed first (in
+	// unsigned arithmetic): stepping a counter until it passes the end would
+	// wrap around, and never stop, for an end near the largest integer
+	var count, width uint64
+	if step > 0 && start <= end {
+		width = uint64(end) - uint64(start)
+		count = width/uint64(step) + 1
+	} else if step < 0 && start >= end {
+		width = uint64(start) - uint64(end)
+		count = width/(uint64(^step)+1) + 1 // ^step+1 is -step without overflow
+	}
+	for k := uint64(0); k < count; k++ {
+		result = append(result, start+int(k)*step)
 	}
 
 	// Ensure we're returning a non-nil slice that can be used in loops
@@ -2085,6 +2087,15 @@ func (e *CoreExtension) filterNumberFormat(value interface{}, args ...interface{
 		if t, ok := args[2].(string); ok {
 			thousandsSep = t
 		}
+	}
+
+	// A float64 has no more than 1074 decimal places; anything beyond that (or
+	// below zero) is not a number of decimals that can be produced
+	if decimals < 0 {
+		decimals = 0
+	}
+	if decimals > 1100 {
+		return nil, fmt.Errorf("number_format: %d is not a usable number of decimals", decimals)
 	}
 
 	// Format the number
